@@ -2,4 +2,9 @@ package main
 
 import "verifharness/c20"
 
-func init() { runners["C20"] = c20.Run; runners["C20W"] = c20.Worker; runners["C20S"] = c20.SettingsWorker }
+func init() {
+	runners["C20"] = c20.Run
+	runners["C20W"] = c20.Worker
+	runners["C20S"] = c20.SettingsWorker
+	runners["C20T"] = c20.StashWorker
+}
